@@ -254,7 +254,7 @@ Proof.
     destruct (Nat.ltb (p_tokens s) (p_w s)) eqn:E1; [|discriminate].
     destruct (Nat.ltb (length (place 0 s)) (capacity (p_w s) 0)) eqn:E2; [|discriminate].
     cbn [andb] in HS.
-    remember (SD id (fst (seed0 u h)) (snd (seed0 u h)) null_oracle) as x eqn:Ex.
+    remember (SD id (fst (seed0 u h)) (snd (seed0 u h)) null_oracle 0) as x eqn:Ex.
     assert (Hxid : s_id x = id) by (subst x; reflexivity).
     inversion HS; subst s'; clear HS.
     apply Nat.ltb_lt in E1. apply Nat.ltb_lt in E2.
@@ -318,7 +318,7 @@ Proof.
     + (* feedback *)
       destruct (Nat.ltb (length (place 0 s)) (capacity (p_w s) 0)) eqn:EC; [|discriminate].
       apply Nat.ltb_lt in EC. inversion HS; subst s'; clear HS.
-      set (y := SD (s_id x) t (s_next x) (s_or x)).
+      set (y := SD (s_id x) t (s_next x) (s_or x) (S (s_pass x))).
       pose proof (move_ids s 9 0 x y rest GL ltac:(unfold NPLACES; lia) ltac:(unfold NPLACES; lia) ltac:(lia) ET' eq_refl) as PM.
       constructor; simpl; auto.
       * rewrite !upd_length. exact GL.
@@ -404,7 +404,7 @@ Proof.
   destruct l as [|k id o|id].
   - destruct (p_src s) as [|[[id u] h] r] eqn:ES; [discriminate|].
     destruct (_ && _); [|discriminate].
-    remember (SD id (fst (seed0 u h)) (snd (seed0 u h)) null_oracle) as x eqn:Ex.
+    remember (SD id (fst (seed0 u h)) (snd (seed0 u h)) null_oracle 0) as x eqn:Ex.
     assert (Hxid : s_id x = id) by (subst x; reflexivity).
     inversion HS; subst s'; clear HS. psimpl.
     destruct (flight_upd s 0 (fun q => q ++ [x]) ltac:(rewrite GL; unfold NPLACES; lia)) as (oth & P1 & P2).
@@ -426,7 +426,7 @@ Proof.
     assert (ET' : take (s_id x) (place 9 s) = Some (x, rest)) by (rewrite Hid; exact ET).
     destruct d.
     + destruct (Nat.ltb _ _); [|discriminate]. inversion HS; subst s'; clear HS. psimpl.
-      set (y := SD (s_id x) t (s_next x) (s_or x)).
+      set (y := SD (s_id x) t (s_next x) (s_or x) (S (s_pass x))).
       pose proof (move_ids s 9 0 x y rest GL ltac:(unfold NPLACES; lia) ltac:(unfold NPLACES; lia) ltac:(lia) ET' eq_refl) as PM.
       unfold flight_ids at 2, in_flight; psimpl. rewrite PM. apply Permutation_refl.
     + inversion HS; subst s'; clear HS. psimpl.
